@@ -350,3 +350,71 @@ Proof.
 Qed.
 
 End Rotate.
+
+(* ------------------------------------------------------------------ N = 2^m, ext = 2^x *)
+Lemma pow2_T_gen (m x : nat) : (m + x + 1 <= 64)%nat ->
+  exists c, 2 ^ 64 = c * (2 * Z.of_nat (2 ^ m) * Z.of_nat (2 ^ x)).
+Proof.
+  intros H. exists (2 ^ (64 - (Z.of_nat m + Z.of_nat x + 1))).
+  rewrite !Nat2Z.inj_pow. cbn [Z.of_nat Pos.of_succ_nat Pos.succ].
+  replace (2 * 2 ^ Z.of_nat m * 2 ^ Z.of_nat x) with (2 ^ (Z.of_nat m + Z.of_nat x + 1))
+    by (rewrite !Z.pow_add_r by lia; ring).
+  rewrite <- Z.pow_add_r by lia. f_equal. lia.
+Qed.
+
+Theorem lut_rotate_is_big_ring_rotation (m x size : nat) (data : lut) (k : Z) :
+  (m + x + 1 <= 62)%nat -> length data = (2 ^ x)%nat -> lut_wf (2 ^ m) size data ->
+  length (lookup_table_rotate (2 ^ m) k data) = length data /\
+  lut_wf (2 ^ m) size (lookup_table_rotate (2 ^ m) k data) /\
+  forall l, (l < size)%nat ->
+    lut_big (2 ^ m) (lookup_table_rotate (2 ^ m) k data) l = monomial_mul 64 k (lut_big (2 ^ m) data l).
+Proof.
+  intros Hmx Hlen Hwf.
+  assert (Hn : (0 < 2 ^ m)%nat) by (pose proof (Nat.pow_nonzero 2 m ltac:(lia)); lia).
+  assert (He : (0 < length data)%nat) by (rewrite Hlen; pose proof (Nat.pow_nonzero 2 x ltac:(lia)); lia).
+  destruct (pow2_T_gen m x ltac:(lia)) as [c Hc]. rewrite <- Hlen in Hc.
+  split; [apply rot_length; auto|]. split; [apply rot_wf; auto|].
+  intros l Hl. apply (rotate_is_big_ring_rotation_gen (2 ^ m) size data k Hn He Hwf c Hc l Hl).
+Qed.
+
+(* the index normalisation `((k + 2N ext) % (2N ext)) as usize`: exact for -2N ext <= k (no wrap-around involved) ... *)
+Theorem lut_kpos_exact (m x : nat) (k : Z) :
+  (m + x + 1 <= 62)%nat ->
+  let T := 2 * Z.of_nat (2 ^ m) * Z.of_nat (2 ^ x) in
+  - T <= k < 2 ^ 62 -> lut_kpos (2 ^ m) (Z.of_nat (2 ^ x)) k = k mod T.
+Proof.
+  intros Hmx T Hk.
+  assert (HT : 0 < T <= 2 ^ 62).
+  { unfold T. rewrite !Nat2Z.inj_pow. cbn [Z.of_nat Pos.of_succ_nat Pos.succ].
+    replace (2 * 2 ^ Z.of_nat m * 2 ^ Z.of_nat x) with (2 ^ (Z.of_nat m + Z.of_nat x + 1))
+      by (rewrite !Z.pow_add_r by lia; ring).
+    split; [apply pow2_pos; lia | apply Z.pow_le_mono_r; lia]. }
+  apply kpos_small; fold T; try lia.
+Qed.
+(* ... and for every other k (k < -2N ext, or k + 2N ext overflowing i64) the value differs from k mod 2N ext by a multiple of
+   2^64 only, which 2N ext divides: the rotation is still the right one (used in the theorem above) *)
+Theorem lut_kpos_congruent (m x : nat) (k : Z) :
+  (m + x + 1 <= 62)%nat ->
+  let T := 2 * Z.of_nat (2 ^ m) * Z.of_nat (2 ^ x) in
+  (lut_kpos (2 ^ m) (Z.of_nat (2 ^ x)) k) mod T = k mod T.
+Proof.
+  intros Hmx T. destruct (pow2_T_gen m x ltac:(lia)) as [c Hc].
+  apply (kpos_congr (2 ^ m) (Z.of_nat (2 ^ x)) k c); [|exact Hc].
+  pose proof (Nat.pow_nonzero 2 m ltac:(lia)). pose proof (Nat.pow_nonzero 2 x ltac:(lia)). nia.
+Qed.
+(* the wrap-around really happens: k = -2N ext - 1 at N = ext = 1 gives 2^64 - 1, not (k mod 2) = 1 *)
+Theorem lut_kpos_wraps : lut_kpos 1 1 (-3) = 2 ^ 64 - 1 /\ (-3) mod 2 = 1.
+Proof. split; reflexivity. Qed.
+
+Theorem interleave_bijection :
+  (forall (n : nat) (parts : list (list Z)),
+     (0 < length parts)%nat -> Forall (fun p : list Z => length p = n) parts ->
+     deinterleave (length parts) (interleave (n * length parts) parts) = parts) /\
+  (forall (n e : nat) (a : list Z),
+     (0 < e)%nat -> length a = (n * e)%nat ->
+     interleave (n * e) (deinterleave e a) = a /\
+     length (deinterleave e a) = e /\ Forall (fun p : list Z => length p = n) (deinterleave e a)).
+Proof.
+  split; [exact deinterleave_interleave|].
+  intros n e a He Hl. split; [exact (interleave_deinterleave n e a He Hl) | exact (deinterleave_shape n e a He Hl)].
+Qed.
